@@ -1633,9 +1633,13 @@ class TokamakEquilibrium(Equilibrium):
                     if region["psi"] is None:
                         raise ValueError("No psi values in region")
                     leg_psi = region["psi"]
-                    eqreg.pressure = lambda psi: self.pressure(
-                        leg_psi + sign * abs(psi - leg_psi)
-                    )
+
+                    # Bind leg_psi and sign as defaults: this is inside a loop over the
+                    # regions, and a closure would see the values of the last region
+                    def leg_pressure(psi, leg_psi=leg_psi, sign=sign):
+                        return self.pressure(leg_psi + sign * abs(psi - leg_psi))
+
+                    eqreg.pressure = leg_pressure
                 else:
                     # Core region, so use the core pressure
                     eqreg.pressure = self.pressure
